@@ -71,6 +71,26 @@ what a recursive formulation on the cached `(n-1)`-hop matrix computes -/
 def nHopExtend (n : Nat) (prev : Nat → Nat → Int) (A : BMat) : M :=
   M.ofFn n (mul n (fun i j => decide (prev i j ≠ 0)) A)
 
+/-- `calculate_n_hop_adj` by BINARY POWERING (a reformulation that needs `O(log n_hop)` products): the result is the product of
+the running powers at the set bits of the hop count; `sq = true` squares the running power after every bit
+(`power = power · power`, so it is the `2^k`-hop matrix at bit `k`), `sq = false` keeps the linear update
+`power = power · adj` (seeded change C13-10: the running power at bit `k` is then only the `(k+1)`-hop matrix) -/
+def nHopBinAux (sq : Bool) (n : Nat) (A : M) : Nat → Nat → Option M → M → Option M
+  | 0, _, ret, _ => ret
+  | fuel + 1, rem, ret, pw =>
+    if rem = 0 then ret else
+    let ret' := if rem % 2 = 1 then
+        (match ret with
+         | none => some pw
+         | some r => some (M.ofFn n (mul n r.get pw.get)))
+      else ret
+    let pw' := if sq then M.ofFn n (mul n pw.get pw.get) else M.ofFn n (mul n pw.get A.get)
+    nHopBinAux sq n A fuel (rem / 2) ret' pw'
+
+def nHopBin (sq : Bool) (n : Nat) (A : BMat) (hops : Nat) : M :=
+  let A' := M.ofFn n A
+  (nHopBinAux sq n A' (max hops 1) (max hops 1) none A').getD A'
+
 /-- entries of an `n × n` Boolean function, row-major -/
 def entries (n : Nat) (A : BMat) : List (Nat × Nat) :=
   (List.range n).flatMap fun i => (List.range n).filterMap fun j => if A i j then some (i, j) else none
